@@ -353,6 +353,18 @@ def raw_svs(parts):
     return s
 
 
+def own_factor(frm, to):
+    """the documented factor between two unit names (hand-written table of the documented units with their physical reference values in
+    harness/props/c12.py - NOT the code's unit system); None when the documentation gives no conversion (different kinds, unknown names)"""
+    from .props import c12
+    frm, to = " ".join(frm.lower().split()), " ".join(to.lower().split())
+    if frm not in c12.NAME_KIND or to not in c12.NAME_KIND or c12.NAME_KIND[frm] != c12.NAME_KIND[to]:
+        return None
+    if c12.NAME_KIND[frm] not in ("mass", "volume") and c12.PRIMARY[frm] != c12.PRIMARY[to]:
+        return None
+    return c12.NAME_REF[frm] / c12.NAME_REF[to]
+
+
 def own_equal_value(a, b):
     """Quantity.has_equal_value_to as documented: equal after unit conversion, to within float imprecision"""
     import math
@@ -361,13 +373,22 @@ def own_equal_value(a, b):
     elif a.unit is None or b.unit is None:
         return False
     else:
-        try:
-            f = UNIT_SYSTEM.convert_between(b.unit.lower(), a.unit.lower())
-        except KeyError:
+        # WHICH names convert into which is taken from the documentation's table (own_factor); the numeric factor itself is the code's
+        # (its value is C12's subject, and the 1e-9 tolerance of the test leaves no room for a second set of constants)
+        f = own_factor(b.unit, a.unit) if b.unit.lower() == " ".join(b.unit.lower().split()) and a.unit.lower() == " ".join(a.unit.lower().split()) else None
+        if f is not None:
+            try:
+                f = UNIT_SYSTEM.convert_between(b.unit.lower(), a.unit.lower())
+            except KeyError:
+                return False       # documented as convertible, refused by the code: reported as a difference by the caller's comparison
+        if f is None:
             if a.unit.lower() != b.unit.lower():
                 return False
             f = 1
-    return math.isclose(a.value, b.value * f)
+    try:
+        return math.isclose(a.value, b.value * f)
+    except (OverflowError, TypeError):
+        return Fraction(a.value) == Fraction(b.value) * Fraction(f)
 
 
 def norm_name(name):
